@@ -69,7 +69,52 @@ def gen_value(rng, kind, cset=None):
         return [rng.choice(TOK) for _ in range(rng.choice([0, 1, 2, 3]))]
     if kind == "note":
         return rng.choice(["", "x", "y", "X", 3, "3", TWINS[2][0], TWINS[2][1]])
+    if kind == "conceptid":                                   # class int: a failed int() leaves the string
+        return rng.choice([1, 22, 7, "", "x1", "1 2", "-3"])
+    if kind == "sonars":                                      # class lambda x: [int(s) for s in x.split()]
+        return rng.choice([[], [1], [7, 5, 1], "a 1", "1  2", [3, 3]])
+    if kind == "numbers":                                     # class lambda x: x.split()
+        return rng.choice([[], ["1.A"], ["2.B", "1.A"], "x  y"])
     raise ValueError(kind)
+
+
+def file_string(c):
+    """a cell as it is written into a file (tab-free, stripped, blank-separated lists)"""
+    t = " ".join(str(x) for x in c) if isinstance(c, list) else str(c)
+    return t.strip()
+
+
+_RC_KINDS = {}
+
+
+def rc_kinds():
+    """spelling -> kind, mirror of parser.read_conf's classD (later lines win), from the translator's parse"""
+    if not _RC_KINDS:
+        from ..translate import wordlist_rc
+        for name, aliases, k in wordlist_rc.parse(os.path.join(env.SRC, wordlist_rc.RC)):
+            for a in [name] + aliases:
+                _RC_KINDS[a.lower()] = _RC_KINDS[a.upper()] = k
+    return _RC_KINDS
+
+
+def py_conv(kind, s):
+    """what the harness expects a file cell to become (mirror of Rows.conv; the implementation is compared
+    with the Coq model, this copy only provides the typed rows the generator works with)"""
+    def toint(x):
+        try:
+            return int(x)
+        except ValueError:
+            return None
+    if kind == "KInt":
+        return s if toint(s) is None else toint(s)
+    if kind == "KInteger":
+        return 0 if not s else (s if toint(s) is None else toint(s))
+    if kind == "KInts":
+        ts = [toint(t) for t in s.split()]
+        return s if None in ts else ts
+    if kind == "KStrs":
+        return s.split()
+    return s
 
 
 def gen_case(rng, size=4, source=None):
@@ -95,6 +140,10 @@ def gen_case(rng, size=4, source=None):
     for extra, p in (("cogids", 0.45), ("tokens", 0.3), ("note", 0.3)):
         if rng.random() < p:
             cols.append(extra)
+    if source == "file":                                      # more typed columns of wordlist.rc
+        for extra, p in (("conceptid", 0.4), ("sonars", 0.35), ("numbers", 0.3), ("langid", 0.2)):
+            if rng.random() < p:
+                cols.append(extra)
     rng.shuffle(cols)
     header = [spelling(rng, c) for c in cols]
     weights = rng.choice([[3, 5, 2, 1], [1, 6, 2, 0], [5, 4, 1, 0], [0, 6, 3, 1]])
@@ -129,10 +178,9 @@ def gen_case(rng, size=4, source=None):
             elif col == "tokens":
                 cells.append(gen_value(rng, "strs"))
             elif col == "cogid":
-                v = gen_value(rng, "cogid", cset)
-                if source == "file" and not isinstance(v, int):
-                    v = 0
-                cells.append(v)
+                cells.append(gen_value(rng, "cogid", cset))
+            elif col == "langid":
+                cells.append(rng.choice(["1", "l2", ""]))
             elif col == "note":
                 v = gen_value(rng, "note")
                 cells.append(str(v) if source == "file" else v)
@@ -153,6 +201,10 @@ def gen_case(rng, size=4, source=None):
             return [nfc(x) for x in v] if isinstance(v, list) else (
                 unicodedata.normalize("NFC", v) if isinstance(v, str) else v)
         rows = [[rid, [nfc(c) for c in cells]] for rid, cells in rows]
+        # what is written into the file, and what QLCParser makes of it (class of the column)
+        raw = [[rid, [file_string(c) for c in cells]] for rid, cells in rows]
+        kd = rc_kinds()
+        rows = [[rid, [py_conv(kd.get(h.lower(), "KStr"), x) for h, x in zip(header, strs)]] for rid, strs in raw]
     kind = "valid"
     c = rng.random()
     if source == "dict" and c < 0.03:
@@ -168,6 +220,7 @@ def gen_case(rng, size=4, source=None):
         header[cols.index("note")] = rng.choice(["taxa", "LANGUAGE", "gloss"])
         kind = "duplicate-canonical"
     case = {"source": source, "kind": kind, "cols": cols, "header": header, "rows": rows,
+            "raw": raw if source == "file" else None,
             "row": "concept", "col": "doculect", "meta": [],
             # the Python container of every multi-valued cell of this case (dictionary source only)
             "multi": rng.choice(["list", "list", "tuple", "tuple", "basictypes"]) if source == "dict" else "list"}
@@ -540,11 +593,8 @@ def write_file(case, path):
         else:
             lines.append("@%s: %s" % (k, v))
     lines.append("\t".join(["ID"] + [h.upper() for h in case["header"]]))
-    for rid, cells in case["rows"]:
-        out = [str(rid)]
-        for c in cells:
-            out.append(" ".join(str(x) for x in c) if isinstance(c, list) else str(c))
-        lines.append("\t".join(out))
+    for rid, strs in case["raw"]:
+        lines.append("\t".join([str(rid)] + list(strs)))
     with open(path, "w", encoding="utf-8") as f:
         f.write("\n".join(lines) + "\n")
 
@@ -772,6 +822,19 @@ def render(case, res):
                 cstr(op["source"]), cstr(op["target"]), L.b(op["override"]),
                 lst([pair(C.cell(v), zn(k)) for v, k in sk["table"]]), zn(sk["kempty"])))
     meta = lst([pair(cstr(k), C.cell(v)) for k, v in case.get("meta", [])])
+
+    def toint(x):
+        try:
+            v = int(x)
+            return v if (-1000 < v < 1000 or v >= 2 ** 20) else None
+        except ValueError:
+            return None
+
+    def r_raw(x):
+        return "(Build_raw %s %s %s)" % (zn(C.name(x)), opt(toint(x), zn),
+                                         lst([pair(zn(C.name(t)), opt(toint(t), zn)) for t in x.split()]))
+    rawrows = opt(case.get("raw") if case["source"] == "file" else None,
+                  lambda rr: lst([pair(zn(rid), lst([r_raw(x) for x in strs])) for rid, strs in rr]))
     q0 = r_queries(C, case["q0"])
     snap0 = opt(res["snap0"], lambda s: r_snapshot(C, s))
     steps = lst(["(%s, %s, %s)" % (o, r_queries(C, q), opt(sn, lambda s: r_snapshot(C, s)))
@@ -780,7 +843,7 @@ def render(case, res):
     lk, rk = C.keys()                                           # after everything has been coded
     hdr = [h.lower() for h in case["header"]] if case["source"] == "file" else case["header"]
     return "(Build_wl_case %s)" % " ".join([
-        lst([cstr(h) for h in hdr]), data, cstr(case.get("row", "concept")), cstr(case.get("col", "doculect")), meta,
+        lst([cstr(h) for h in hdr]), data, cstr(case.get("row", "concept")), cstr(case.get("col", "doculect")), meta, rawrows,
         lst([pair(zn(a), zn(b)) for a, b in lk]), lst([pair(zn(a), zn(b)) for a, b in rk]),
         q0, snap0, steps, conv])
 
@@ -844,6 +907,8 @@ def _shrink_all(case):
         for i in range(len(rows)):
             c = dict(case)
             c["rows"] = rows[:i] + rows[i + 1:]
+            if case.get("raw"):
+                c["raw"] = case["raw"][:i] + case["raw"][i + 1:]
             yield c
     for key in ("entries", "items", "paps", "dst"):
         if len(case["q0"][key]) > 1:
